@@ -224,15 +224,37 @@ fn gen_level(r: &mut Rng, p: &mut Pools, depth: usize) -> Shape {
                     (a, _) => a,
                 }
             }
-            3 => {
-                // adjacent group starting with a required, env-less flag
-                let first = gen_named(r, p, 0).map(|n| Shape::ReqFlag(n, 1));
+            3 | 4 => {
+                // adjacent group: starts with a required named item (its variable may stand in
+                // for it), followed by one or two more items
+                let first = gen_named(r, p, 5).and_then(|n| {
+                    if n.shorts.is_empty() && n.longs.is_empty() {
+                        return None;
+                    }
+                    Some(if r.chance(1, 2) {
+                        Shape::ReqFlag(n, 1)
+                    } else {
+                        Shape::Arg {
+                            named: n,
+                            metavar: "T",
+                            ty: *r.pick(&[Ty::Int, Ty::Str][..]),
+                            adjacent: false,
+                        }
+                    })
+                });
                 let second = gen_item(r, p);
+                let third = if r.chance(1, 3) { gen_item(r, p) } else { None };
                 match (first, second) {
-                    (Some(a), Some(b)) => Some(Shape::Wrap(
-                        W::Many { catch: false },
-                        Box::new(Shape::Seq(vec![a, b], true)),
-                    )),
+                    (Some(a), Some(b)) => {
+                        let mut members = vec![a, b];
+                        members.extend(third);
+                        let g = Shape::Seq(members, true);
+                        Some(match r.below(4) {
+                            0 => g,
+                            1 => Shape::Wrap(W::Optional { catch: false }, Box::new(g)),
+                            _ => Shape::Wrap(W::Many { catch: false }, Box::new(g)),
+                        })
+                    }
                     (_, b) => b,
                 }
             }
@@ -273,6 +295,7 @@ fn gen_level(r: &mut Rng, p: &mut Pools, depth: usize) -> Shape {
                 if r.chance(1, 2) {
                     o.version = Some("1.0");
                 }
+                o.fallback_to_usage = r.chance(1, 5);
                 cmds.push(Shape::Cmd {
                     name,
                     shorts: vec![],
@@ -312,6 +335,7 @@ pub fn gen_opts(r: &mut Rng) -> Opts {
         if r.chance(1, 3) {
             o.descr = Some("description");
         }
+        o.fallback_to_usage = r.chance(1, 5);
         if index(&o).iter().any(|i| !i.named.envs.is_empty()) && exec::build_checked(&o).is_some() {
             return o;
         }
@@ -354,6 +378,8 @@ pub struct Item {
     pub adjacent_arg: bool,
     /// wrappers directly on the leaf, innermost first
     pub stack: Vec<W>,
+    /// member of an adjacent group: (node id of the group, index among its members)
+    pub group: Option<(usize, usize)>,
 }
 
 #[derive(Clone, Debug)]
@@ -421,6 +447,7 @@ fn visit(s: &Shape, level: usize, ctx: Ctx, stack: &mut Vec<W>, counter: &mut us
                 ty: Ty::Str,
                 adjacent_arg: false,
                 stack: st,
+                group: None,
             });
         }
         Shape::Arg {
@@ -437,6 +464,7 @@ fn visit(s: &Shape, level: usize, ctx: Ctx, stack: &mut Vec<W>, counter: &mut us
                 ty: *ty,
                 adjacent_arg: *adjacent,
                 stack: st,
+                group: None,
             });
         }
         Shape::Pos { .. } | Shape::Any { .. } | Shape::Literal { .. } => {
@@ -487,8 +515,13 @@ fn visit(s: &Shape, level: usize, ctx: Ctx, stack: &mut Vec<W>, counter: &mut us
         }
         Shape::Seq(fields, adj) => {
             let c = if *adj { Ctx::Other } else { ctx };
-            for f in fields {
+            for (k, f) in fields.iter().enumerate() {
+                let before = ix.items.len();
                 visit(f, level, c, &mut Vec::new(), counter, ix);
+                // direct leaf members of an adjacent group remember their place in it
+                if *adj && leaf_chain(f) && ix.items.len() == before + 1 {
+                    ix.items[before].group = Some((id, k));
+                }
             }
         }
         Shape::Alt(alts) => {
@@ -551,6 +584,49 @@ pub fn map_leaf(o: &Opts, id: usize, f: &dyn Fn(&Named) -> Named) -> Opts {
     o2
 }
 
+/// the definition with `fallback_to_usage` switched off at one command level (levels are
+/// numbered the way `index` numbers them: 0 = top, then commands in pre-order)
+pub fn without_usage_fallback(o: &Opts, level: usize) -> Opts {
+    fn go(s: &Shape, level: usize, counter: &mut usize) -> Shape {
+        match s {
+            Shape::Cmd {
+                name,
+                shorts,
+                longs,
+                help,
+                adjacent,
+                opts,
+            } => {
+                *counter += 1;
+                let mut o2 = (**opts).clone();
+                if *counter == level {
+                    o2.fallback_to_usage = false;
+                }
+                o2.root = go(&opts.root, level, counter);
+                Shape::Cmd {
+                    name,
+                    shorts: shorts.clone(),
+                    longs: longs.clone(),
+                    help: *help,
+                    adjacent: *adjacent,
+                    opts: Box::new(o2),
+                }
+            }
+            Shape::Wrap(w, inner) => Shape::Wrap(w.clone(), Box::new(go(inner, level, counter))),
+            Shape::Seq(xs, adj) => Shape::Seq(xs.iter().map(|x| go(x, level, counter)).collect(), *adj),
+            Shape::Alt(xs) => Shape::Alt(xs.iter().map(|x| go(x, level, counter)).collect()),
+            other => other.clone(),
+        }
+    }
+    let mut o2 = o.clone();
+    if level == 0 {
+        o2.fallback_to_usage = false;
+    }
+    let mut counter = 0;
+    o2.root = go(&o.root, level, &mut counter);
+    o2
+}
+
 // ---------------------------------------------------------------------------------------------
 // command lines the oracles fully understand
 
@@ -560,6 +636,8 @@ pub struct LineInfo {
     pub occurrences: BTreeMap<usize, usize>,
     /// level -> index in argv where that level's own items begin
     pub level_start: BTreeMap<usize, usize>,
+    /// (item id, first token index, one past its last token) for every occurrence
+    pub spans: Vec<(usize, usize, usize)>,
 }
 
 fn spellings(n: &Named) -> (Vec<Vec<u8>>, Vec<Vec<u8>>) {
@@ -597,6 +675,7 @@ pub fn scan(ix: &Index, argv: &[Tok]) -> Option<LineInfo> {
             if tok.len() < 2 {
                 return None;
             }
+            let tok_start = i;
             // which item of this level does it spell?
             let mut hit: Option<(&Item, Option<Vec<u8>>)> = None;
             for it in ix.items.iter().filter(|it| it.level == level) {
@@ -663,6 +742,7 @@ pub fn scan(ix: &Index, argv: &[Tok]) -> Option<LineInfo> {
                 i += 1;
             }
             *info.occurrences.entry(it.id).or_insert(0) += 1;
+            info.spans.push((it.id, tok_start, i + 1));
             i += 1;
             continue;
         }
@@ -750,7 +830,52 @@ pub fn gen_line(r: &mut Rng, o: &Opts, ix: &Index, allow_invalid: bool) -> Vec<T
         let mut groups: Vec<Vec<Tok>> = Vec::new();
         // alternatives: usually spell one branch only. Approximation: spell each item with a
         // probability that depends on its context
-        for it in ix.items.iter().filter(|it| it.level == level) {
+        // adjacent groups: zero to two contiguous blocks, members in declaration order; a
+        // member whose variable may stand in for it is sometimes left out
+        let mut group_ids: Vec<usize> = ix
+            .items
+            .iter()
+            .filter(|it| it.level == level)
+            .filter_map(|it| it.group.map(|g| g.0))
+            .collect();
+        group_ids.sort_unstable();
+        group_ids.dedup();
+        for gid in &group_ids {
+            let mut members: Vec<&Item> = ix
+                .items
+                .iter()
+                .filter(|it| it.group.map(|g| g.0) == Some(*gid))
+                .collect();
+            members.sort_by_key(|it| it.group.unwrap().1);
+            let blocks = *r.pick(&[0usize, 1, 1, 1, 2][..]);
+            for _ in 0..blocks {
+                let mut block: Vec<Tok> = Vec::new();
+                for m in &members {
+                    let backed = !m.named.envs.is_empty();
+                    let optional = !m.stack.is_empty() || m.is_flag && m.group.unwrap().1 > 0;
+                    let skip = if backed {
+                        r.chance(1, 2)
+                    } else if optional {
+                        r.chance(1, 3)
+                    } else {
+                        r.chance(1, 12)
+                    };
+                    if skip {
+                        continue;
+                    }
+                    let inv = allow_invalid && r.chance(1, 10);
+                    block.extend(spell_item(r, m, inv));
+                }
+                if !block.is_empty() {
+                    groups.push(block);
+                }
+            }
+        }
+        for it in ix
+            .items
+            .iter()
+            .filter(|it| it.level == level && it.group.is_none())
+        {
             let p = match it.ctx {
                 Ctx::Simple => 4,
                 Ctx::Alt => 3,
@@ -993,6 +1118,32 @@ fn value_is_invalid(it: &Item, v: &[u8]) -> Option<bool> {
     Some(false)
 }
 
+/// the value is invalid for the leaf (or for the guard/parse callbacks that sit directly on it)
+/// and the first wrapper above those is one with `catch`
+fn invalid_inside_catch(it: &Item, v: &[u8]) -> bool {
+    if value_is_invalid(it, v) != Some(true) {
+        return false;
+    }
+    for w in &it.stack {
+        match w {
+            W::Guard { .. }
+            | W::Parse { .. }
+            | W::Map { .. }
+            | W::Hide
+            | W::HideUsage
+            | W::GroupHelp(_)
+            | W::Boxed
+            | W::CustomUsage(_) => {}
+            W::Optional { catch: true }
+            | W::Many { catch: true }
+            | W::Some_ { catch: true, .. }
+            | W::Collect { catch: true } => return true,
+            _ => return false,
+        }
+    }
+    false
+}
+
 struct Live {
     opts: Opts,
     parser: bpaf::OptionParser<val::Val>,
@@ -1019,6 +1170,15 @@ fn with_env_removed<R>(names: &[S], f: impl FnOnce() -> R) -> R {
     let r = f();
     world::with(|s| s.env = saved);
     r
+}
+
+/// equal results, except that two help/usage texts need not be equal: help shows the state of
+/// the variables (`[env:NAME = ..]`), which is exactly what the compared runs vary
+fn same_modulo_help(a: &Obs, b: &Obs) -> bool {
+    if let (Outcome::Stdout(_), Outcome::Stdout(_)) = (&a.outcome, &b.outcome) {
+        return a.out == b.out && a.err == b.err;
+    }
+    a.same_result(b)
 }
 
 fn first_set(named: &Named) -> Option<(S, Vec<u8>)> {
@@ -1057,14 +1217,20 @@ pub fn run_case(case: &Case, stats: &mut Stats) -> RunReport {
     let mut relational = 0u64;
     macro_rules! violation {
         ($rule:expr, $ix:expr, $key:expr, $detail:expr) => {{
-            report.violation = Some(Violation {
-                rule: $rule.to_string(),
-                op_index: $ix,
-                key: $key,
-                detail: $detail,
-            });
-            report.hash = h.finish();
-            return report;
+            let key: String = $key;
+            if crate::is_known("C18", &key) {
+                // a recorded finding: count it and carry on with the run
+                stats.bump(&format!("known-finding.{}", key));
+            } else {
+                report.violation = Some(Violation {
+                    rule: $rule.to_string(),
+                    op_index: $ix,
+                    key,
+                    detail: $detail,
+                });
+                report.hash = h.finish();
+                return report;
+            }
         }};
     }
     for (opi, op) in case.ops.iter().enumerate() {
@@ -1216,14 +1382,67 @@ pub fn run_case(case: &Case, stats: &mut Stats) -> RunReport {
                     }
                 };
                 stats.bump("line.plain");
-                let any_usage_fallback = l.ix.levels.iter().any(|lv| lv.fallback_to_usage);
+                // Lines on which an adjacent group has to find its place although its first
+                // member - the anchor bpaf searches for - is absent and comes from a variable
+                // are subject to the recorded finding about such groups (known_findings.txt):
+                // where the block is found depends on what else is on the line. On those
+                // lines only that first member itself is judged by the rules that insert
+                // tokens; for every other item they would measure the finding again.
+                let mut anchor_from_variable: Vec<usize> = Vec::new();
+                let mut unanchored_extra_block = false;
+                for first in l.ix.iter().filter(|m| matches!(m.group, Some((_, 0)))) {
+                    if !info.level_start.contains_key(&first.level) {
+                        continue;
+                    }
+                    let gid = first.group.unwrap().0;
+                    let member_ids: Vec<usize> = l
+                        .ix
+                        .iter()
+                        .filter(|o| o.group.map(|g| g.0) == Some(gid))
+                        .map(|o| o.id)
+                        .collect();
+                    // contiguous runs of the group's tokens
+                    let mut spans: Vec<(usize, usize, usize)> = info
+                        .spans
+                        .iter()
+                        .filter(|sp| member_ids.contains(&sp.0))
+                        .map(|sp| (sp.1, sp.2, sp.0))
+                        .collect();
+                    spans.sort_unstable();
+                    let mut runs: Vec<bool> = Vec::new();
+                    let mut prev_end: Option<usize> = None;
+                    for (st, en, id) in &spans {
+                        if prev_end != Some(*st) {
+                            // a block is anchored when it *starts* with the first member
+                            runs.push(*id == first.id);
+                        }
+                        prev_end = Some(*en);
+                    }
+                    let unanchored = runs.iter().filter(|a| !**a).count();
+                    if unanchored > 0 {
+                        if runs.len() == 1 {
+                            anchor_from_variable.push(first.id);
+                        } else {
+                            unanchored_extra_block = true;
+                        }
+                    }
+                }
+                if !anchor_from_variable.is_empty() || unanchored_extra_block {
+                    stats.bump("probe.adjacent_anchor_absent_on_line");
+                }
                 for it in l.ix.iter().filter(|it| !it.named.envs.is_empty()) {
                     let entered = info.level_start.contains_key(&it.level);
+                    let tainted = unanchored_extra_block
+                        || (!anchor_from_variable.is_empty() && !anchor_from_variable.contains(&it.id));
                     if !entered {
                         continue;
                     }
                     let occ = info.occurrences.get(&it.id).copied().unwrap_or(0);
                     let set = first_set(&it.named);
+                    // a level with fallback_to_usage that sees nothing on its part of the
+                    // line answers a failed parse with usage on stdout instead of an error
+                    let usage_level_empty = l.ix.levels[it.level].fallback_to_usage
+                        && info.level_start[&it.level] == argv.len();
                     let wrappers = it
                         .stack
                         .iter()
@@ -1241,7 +1460,7 @@ pub fn run_case(case: &Case, stats: &mut Stats) -> RunReport {
                                 stats.bump("probe.R2_with_invalid_variable");
                             }
                             stats.state(&["R2", &wrappers, if inv { "invalid" } else { "valid" }, first.outcome.class()]);
-                            if !without.same_result(&first) {
+                            if !same_modulo_help(&without, &first) {
                                 violation!(
                                     "R2",
                                     opi,
@@ -1336,11 +1555,130 @@ pub fn run_case(case: &Case, stats: &mut Stats) -> RunReport {
                                     );
                                 }
                             }
+                            // ---- R3 inside an adjacent group: when the group's other
+                            // members form exactly one contiguous block on the line, the
+                            // variable must stand in for this member exactly like the value
+                            // typed at the block's edge
+                            if let (Some((gid, member_ix)), true) = (
+                                it.group,
+                                named_item
+                                    && !has_catch
+                                    && !it.adjacent_arg
+                                    && !usage_level_empty
+                                    && !tainted
+                                    && !shares_name_with_ancestor(&l.ix, it),
+                            ) {
+                                let member_ids: Vec<usize> = l
+                                    .ix
+                                    .items
+                                    .iter()
+                                    .filter(|m| m.group.map(|g| g.0) == Some(gid))
+                                    .map(|m| m.id)
+                                    .collect();
+                                let mut spans: Vec<(usize, usize)> = info
+                                    .spans
+                                    .iter()
+                                    .filter(|sp| member_ids.contains(&sp.0))
+                                    .map(|sp| (sp.1, sp.2))
+                                    .collect();
+                                spans.sort_unstable();
+                                let contiguous = !spans.is_empty()
+                                    && spans.windows(2).all(|w| w[0].1 == w[1].0);
+                                let once = member_ids
+                                    .iter()
+                                    .all(|m| info.occurrences.get(m).copied().unwrap_or(0) <= 1);
+                                if contiguous && once {
+                                    let mut toks: Vec<Tok> = Vec::new();
+                                    let mut t: Vec<u8> = match it.named.longs.first() {
+                                        Some(lg) => format!("--{}", lg).into_bytes(),
+                                        None => format!("-{}", it.named.shorts[0]).into_bytes(),
+                                    };
+                                    if !it.is_flag {
+                                        t.push(b'=');
+                                        t.extend_from_slice(v);
+                                    }
+                                    toks.push(t);
+                                    let at = if member_ix == 0 {
+                                        spans[0].0
+                                    } else {
+                                        spans[spans.len() - 1].1
+                                    };
+                                    let mut argv2 = argv.clone();
+                                    for (k, t) in toks.into_iter().enumerate() {
+                                        argv2.insert(at + k, t);
+                                    }
+                                    let op2 = match op {
+                                        Op::Run { p, name, comp, .. } => Op::Run {
+                                            p: *p,
+                                            argv: argv2,
+                                            name: name.clone(),
+                                            comp: *comp,
+                                            cb: None,
+                                        },
+                                        _ => unreachable!(),
+                                    };
+                                    let typed = with_env_removed(&it.named.envs, || run_on(l, &op2));
+                                    stats.bump("rule.R3adj.evaluated");
+                                    relational += 1;
+                                    if member_ix == 0 {
+                                        stats.bump("probe.R3adj_first_member_from_variable");
+                                    }
+                                    // inside an adjacent group which failure is reported
+                                    // depends on how much each attempt consumed; two failures
+                                    // are equivalent whatever their text
+                                    let same = match (&first.outcome, &typed.outcome) {
+                                        (Outcome::Stderr(_), Outcome::Stderr(_)) => true,
+                                        _ => equivalent(&first, &typed),
+                                    };
+                                    if !same {
+                                        // what the block looks like to bpaf's adjacency
+                                        // search: kind of this member, kind of the member that
+                                        // opens the block on the line, items from there to the
+                                        // end of the line
+                                        let opener = l
+                                            .ix
+                                            .items
+                                            .iter()
+                                            .find(|m| {
+                                                info.spans
+                                                    .iter()
+                                                    .any(|sp| sp.0 == m.id && sp.1 == spans[0].0)
+                                            })
+                                            .map_or("?", |m| if m.is_flag { "flag" } else { "argument" });
+                                        violation!(
+                                            "R3",
+                                            opi,
+                                            if member_ix == 0 {
+                                                format!(
+                                                    "rule=R3 adjacent-group member=first self={} opener={}",
+                                                    if it.is_flag { "flag" } else { "argument" },
+                                                    opener
+                                                )
+                                            } else {
+                                                format!(
+                                                    "rule=R3 adjacent-group member=later classes={}/{}",
+                                                    first.outcome.class(),
+                                                    typed.outcome.class()
+                                                )
+                                            },
+                                            format!(
+                                                "item {:?} is member {} of an adjacent group whose other members form one block on the line; it is absent and its variable holds {:?}\nfrom variable : {}\ntyped at the block's edge: {}",
+                                                it.named,
+                                                member_ix,
+                                                String::from_utf8_lossy(v),
+                                                describe(&first),
+                                                describe(&typed)
+                                            )
+                                        );
+                                    }
+                                }
+                            }
                             if it.ctx == Ctx::Simple
                                 && named_item
                                 && !has_catch
                                 && !it.adjacent_arg
-                                && !any_usage_fallback
+                                && !usage_level_empty
+                                && !tainted
                                 && !shares_name_with_ancestor(&l.ix, it)
                             {
                                 let mut tok: Vec<u8> = match it.named.longs.first() {
@@ -1399,9 +1737,64 @@ pub fn run_case(case: &Case, stats: &mut Stats) -> RunReport {
                                     );
                                 }
                             }
+                            // ---- R10: usage instead of an error, never instead of a value: if
+                            // the level would produce a value without fallback_to_usage (its
+                            // items being satisfied by their variables) it produces it with
+                            if usage_level_empty {
+                                let plain = without_usage_fallback(&l.opts, it.level);
+                                let twin = Live {
+                                    parser: exec::build_unchecked(&plain),
+                                    ix: index(&plain),
+                                    opts: plain,
+                                };
+                                let other = run_on(&twin, op);
+                                stats.bump("rule.R10.evaluated");
+                                if let Outcome::Value(_) = other.outcome {
+                                    stats.bump("probe.R10_value_from_variables_on_empty_line");
+                                    if other.outcome != first.outcome {
+                                        violation!(
+                                            "R10",
+                                            opi,
+                                            format!("rule=R10 got={}", first.outcome.class()),
+                                            format!(
+                                                "the level of item {:?} sees an empty line and its items are satisfied by their variables; fallback_to_usage must not replace the value\nwith fallback_to_usage   : {}\nwithout fallback_to_usage: {}",
+                                                it.named,
+                                                describe(&first),
+                                                describe(&other)
+                                            )
+                                        );
+                                    }
+                                }
+                            }
+                            // ---- R11: under `catch` a value that does not convert counts as
+                            // absent, wherever it came from: an invalid variable behaves like
+                            // an unset one
+                            if it.ctx == Ctx::Simple && invalid_inside_catch(it, v) {
+                                let without = with_env_removed(&it.named.envs, || run_on(l, op));
+                                stats.bump("rule.R11.evaluated");
+                                if !same_modulo_help(&without, &first) {
+                                    violation!(
+                                        "R11",
+                                        opi,
+                                        format!(
+                                            "rule=R11 classes={}/{}",
+                                            first.outcome.class(),
+                                            without.outcome.class()
+                                        ),
+                                        format!(
+                                            "item {:?} absent from the line, under catch, its variable holds the invalid value {:?}\nvariable invalid: {}\nvariable unset  : {}",
+                                            it.named,
+                                            String::from_utf8_lossy(v),
+                                            describe(&first),
+                                            describe(&without)
+                                        )
+                                    );
+                                }
+                            }
                             // ---- R5: an invalid value that is used is never masked
                             if it.ctx == Ctx::Simple
                                 && !has_catch
+                                && !usage_level_empty
                                 && value_is_invalid(it, v) == Some(true)
                             {
                                 stats.bump("rule.R5.evaluated");
@@ -1439,7 +1832,12 @@ pub fn run_case(case: &Case, stats: &mut Stats) -> RunReport {
                                 };
                                 let plain = run_on(&twin, op);
                                 stats.bump("rule.R4.evaluated");
-                                if !plain.same_result(&first) {
+                                // usage/help text legitimately differs (it shows `[env:..]`)
+                                let both_stdout = matches!(
+                                    (&plain.outcome, &first.outcome),
+                                    (Outcome::Stdout(_), Outcome::Stdout(_))
+                                );
+                                if !both_stdout && !plain.same_result(&first) {
                                     violation!(
                                         "R4",
                                         opi,
@@ -1473,7 +1871,7 @@ pub fn run_case(case: &Case, stats: &mut Stats) -> RunReport {
                                         )
                                     });
                                 let only_item = l.ix.items.len() == 1 && !l.ix.levels[0].has_positional;
-                                if required && only_item {
+                                if required && only_item && !usage_level_empty {
                                     let ok = match &first.outcome {
                                         Outcome::Stderr(m) => m.contains(it.named.envs[0]),
                                         _ => false,
